@@ -134,4 +134,24 @@ def SameRec : Schema → List Val → List Val → Prop
   | f :: s, v :: r, v' :: r' => canon f.kind v = canon f.kind v' ∧ SameRec s r r'
   | _, _, _ => False
 
+/-! ### records that are text -/
+
+/-- one trimmed line: written on the field's own line and read back byte for byte -/
+def textLine (d : Bytes) : Bool := Str.trimSpace d = d && !d.contains 10
+
+/-- every field has a well-formed name, is not `multiline`, and renders as one trimmed
+    line -/
+def textRec (s : Schema) (r : List Val) : Bool :=
+  (s.zip r).all (fun fv => Spec.Deb822.wfName fv.1.key && !fv.1.multiline &&
+    match marshalValue 16 fv.1.kind fv.1.delim fv.2 with
+    | .ok d => textLine d
+    | .error _ => true)
+
+/-- some named field is written: it is required or its rendering is not empty -/
+def someWritten (s : Schema) (r : List Val) : Bool :=
+  (s.zip r).any (fun fv => !fv.1.anonymous && fv.1.key != [45] &&
+    match marshalValue 16 fv.1.kind fv.1.delim fv.2 with
+    | .ok d => fv.1.required || !d.isEmpty
+    | .error _ => false)
+
 end GoDebian.Spec.Codec
